@@ -1,6 +1,7 @@
 (** Property C15 - from_iter
     Theorems only: statement, [exact], [Print Assumptions] (statements restated verbatim from the
     Inv_*.v files where they are proved).  See DESIGN.md section 5 for how each renders the property. *)
+From CB Require Import Flow Flow_ends.
 From CB Require Import ProofLib Spec MonitorSound Results.
 From CB Require Import Inv_from_iter.
 
@@ -60,3 +61,12 @@ Theorem C15_from_iter_disposed_stops (it : nat -> option val) p :
        nexts (trace (fold_left (@step p (from_iter_op it)) mvs c)) = nexts (trace c)).
 Proof. exact (@from_iter_disposed_stops it p). Qed.
 Print Assumptions C15_from_iter_disposed_stops.
+
+(** "one item per Pull": when the sink sends at most one Pull per message it received ([one_pull]), then at
+    rest with the sink live the number of Pulls received equals the number of items delivered - no Pull is
+    lost to coalescing and none is served twice; from_iter only ever calls its sink (Flow_ends.v) *)
+Theorem C15_from_iter_one_item_per_pull (it : nat -> option val) p :
+  nsinks p = 1 -> resub p = false -> no_nest p = true -> c14 p = false -> one_pull p = true ->
+  source_flow (from_iter_op it) p.
+Proof. exact (@from_iter_source_flow it p). Qed.
+Print Assumptions C15_from_iter_one_item_per_pull.
